@@ -250,7 +250,24 @@ class Model:
 
         def np_sum(a):
             return getattr(a, "n_true", a)
-        g["np"] = Namespace("np", all=np_all, arange=np_arange, sum=np_sum,
+        def np_allclose(a, b, rtol=1e-05, atol=1e-08):
+            def flat(x):
+                if isinstance(x, NdArray):
+                    return [float(v) for v in x.flat()]
+                if isinstance(x, (list, tuple)):
+                    return [float(v) for v in x]
+                return [float(x)]
+            fa, fb = flat(a), flat(b)
+            if len(fb) == 1:
+                fb = fb * len(fa)
+            if len(fa) == 1:
+                fa = fa * len(fb)
+            if len(fa) != len(fb):
+                raise ValueError("operands could not be broadcast together")
+            return all(abs(x - y) <= atol + rtol * abs(y)
+                       for x, y in zip(fa, fb))
+        g["np"] = Namespace("np", allclose=np_allclose,
+                            all=np_all, arange=np_arange, sum=np_sum,
                             diff=NP.diff, array=NP.array,
                             asarray=NP.asarray)
         self.envs.shared["np"] = g["np"]
@@ -707,6 +724,31 @@ def r131(ctx, repo, model, pattern, sets):
         allimp.setdefault(s, [])
         allimp[s] += list(k)
     tnode = repo.module_assign(CHK, "IMPORTANT_KEYS")
+    for tname, table in (("IMPORTANT_KEYS", imp),
+                         ("IMPORTANT_KEYS_FL", imp_fl)):
+        for sec, keys in table.items():
+            dup = sorted({k for k in keys if list(keys).count(k) > 1})
+            ctx.ob("R13.1", not dup,
+                   f"{tname}[{sec}] lists every mandatory key once"
+                   if not dup else
+                   f"{tname}[{sec}] lists {dup} more than once: an entry "
+                   "was overwritten by its neighbour, so a mandatory key "
+                   "is missing from the list (only an alert when absent)",
+                   node=repo.module_assign(CHK, tname),
+                   key=f"{CHK}::{tname}::[{sec}] unique")
+    # the region of interest is mandatory as a whole: position and size,
+    # x and y
+    for key in ("roi position x", "roi position y", "roi size x",
+                "roi size y"):
+        if key in imp.get("imaging", []) or key not in model.cfgkeys.get(
+                "imaging", []):
+            continue
+
+        def m(ds, key=key):
+            del ds.config["imaging"][key]
+        seeded("missing metadata", "check_metadata_missing",
+               f"[imaging] {key}", m, key_is("imaging", key),
+               f"missing [imaging] '{key}'")
     for sec, keys in allimp.items():
         for key in keys:
             known = key in model.cfgkeys.get(sec, [])
@@ -873,6 +915,29 @@ def r131(ctx, repo, model, pattern, sets):
                key_is("fluorescence", "laser count"),
                f"{label}, laser count {wrong} (active lasers: {active})",
                fluor=True)
+
+    # temperature sensor (ZMD set-ups): only an all-zero column is a
+    # violation, a column that merely starts with zeros is not
+    if "check_temperature_zero_zmd" in model.methods:
+        def zmd(ds, data):
+            ds.config["setup"]["identifier"] = "ZMD-12"
+            ds.feats["temp"] = NdArray.of(data, "float")
+
+        def warm(ds):
+            zmd(ds, [0.0] * 10 + [23.1, 23.2, 23.0, 23.4, 23.3])
+
+        def warm_late(ds):
+            zmd(ds, [0.0] * 14 + [22.5])
+        for label, mut in (("ten leading zeros then real values", warm),
+                           ("zeros except the last value", warm_late)):
+            clean("temperature", "check_temperature_zero_zmd", mutate=mut,
+                  label=f"temp column with {label} accepted")
+
+        def dead(ds):
+            zmd(ds, [0.0] * 15)
+        seeded("temperature", "check_temperature_zero_zmd",
+               "all-zero temp column", dead, has("all-zero"),
+               "all-zero 'temp' feature of a ZMD set-up")
 
     # 9 external links
     def ext_link(ds):
@@ -2418,4 +2483,22 @@ MUTANTS = list(MUTANTS) + [
        "        self.h5file.require_group(\"events\")\n"
        "        self.version_brand()\n\n"
        "    @staticmethod\n    def get_best_nd_chunks(")], "R13.3"),
+]
+
+# round-6 seeded changes
+MUTANTS = list(MUTANTS) + [
+    ("mandatory key overwritten by its neighbour", CHK,
+     ('        "roi position y",\n', '        "roi position x",\n'), "R13.1"),
+    ("temperature test looks at the first ten values only", CHK,
+     ("            if np.allclose(temp[:10], 0) and np.allclose(temp, 0):",
+      "            if np.allclose(temp[:10], 0):"), "R13.1"),
+    ("temperature test never fires", CHK,
+     ("            if np.allclose(temp[:10], 0) and np.allclose(temp, 0):",
+      "            if np.allclose(temp[:10], 1) and np.allclose(temp, 0):"),
+     "R13.1"),
+]
+TWINS = list(TWINS) + [
+    ("temperature test without the head shortcut", CHK,
+     ("            if np.allclose(temp[:10], 0) and np.allclose(temp, 0):",
+      "            if np.allclose(temp, 0):")),
 ]
